@@ -391,6 +391,123 @@ theorem openPfx_mac_binding (file : Bytes) (rs : List Nat) (pw' : Bytes)
   · exact (verifyMac_ok_iff _ _ _ _ _ _).1 h1
   · exact (verifyMac_ok_iff _ _ _ _ _ _).1 h1
 
+/-! ## the whole KDF against RFC 7292 App. B.2 -/
+
+/-- step 6.C of the RFC on all k blocks of I: I_j := (I_j + B + 1) mod 2^(8v) -/
+def addAllSpec (v : Nat) (b : Bytes) (i : Bytes) : Nat → Bytes
+  | 0 => i
+  | k+1 => addBlockSpec v (i.take v) b ++ addAllSpec v b (i.drop v) k
+
+/-- steps 6.A–6.C of the RFC, `k` rounds left -/
+def pbkdfLoopSpec (h : Bytes → Bytes) (v : Nat) (d : Bytes) (r : Nat) : Nat → Bytes → Bytes
+  | 0, _ => []
+  | k+1, i =>
+    let ai := hashIter h (h (d ++ i)) (r - 1)
+    if k = 0 then ai
+    else ai ++ pbkdfLoopSpec h v d r k (addAllSpec v (makeB ai v) i (i.length / v))
+
+/-- RFC 7292 App. B.2 with u = 20: D = v copies of ID; I = S ‖ P; c = ⌈n/u⌉; A = A_1 ‖ … ‖ A_c; first n bytes -/
+def pbkdfSpec (h : Bytes → Bytes) (v : Nat) (salt password : Bytes) (r : Nat) (id : UInt8) (size : Nat) : Bytes :=
+  (pbkdfLoopSpec h v (List.replicate v id) r ((size + 20 - 1) / 20)
+    (fillWithRepeats salt v ++ fillWithRepeats password v)).take size
+
+theorem addAllGo_eq_spec (v : Nat) (b : Bytes) : ∀ k i, addAllGo v b i k = addAllSpec v b i k
+  | 0, _ => rfl
+  | k+1, i => by simp only [addAllGo, addAllSpec, pbkdf_add_eq, addAllGo_eq_spec v b k]
+
+theorem pbkdfLoop_eq_spec (h : Bytes → Bytes) (v : Nat) (d : Bytes) (r : Nat) :
+    ∀ c i, pbkdfLoop h v d r c i = pbkdfLoopSpec h v d r c i
+  | 0, _ => rfl
+  | c+1, i => by
+    simp only [pbkdfLoop, pbkdfLoopSpec, addAllGo_eq_spec, pbkdfLoop_eq_spec h v d r c]
+
+/-- **pbkdf_eq_spec.** The whole derivation as coded (math/big detour included) is RFC 7292 App. B.2
+    for every salt, password, iteration count, ID and size (over the SHA-1 stand-in). -/
+theorem pbkdf_eq_spec (salt password : Bytes) (r : Nat) (id : UInt8) (size : Nat) :
+    pbkdf salt password r id size = pbkdfSpec Prim.sha1 64 salt password r id size := by
+  unfold pbkdf pbkdfWith pbkdfSpec
+  simp only [pbkdfLoop_eq_spec]
+
+/-! ## wrong password -/
+
+/-- **wrong_password.** If the outer structure is the known one (version 3, `data`, SHA-1, count in
+    range) and the stored digest is not the HMAC under the key derived from the given password — nor,
+    when the given password is "" (00 00), under the zero-length password — the reader's verdict is
+    ErrIncorrectPassword. -/
+theorem openPfx_wrong_password (file : Bytes) (rs : List Nat) (pw : Bytes) (m : PfxMac)
+    (hb : bmpString rs = some pw) (hm : parsePfxMac file = some m) (h3 : m.version = 3)
+    (hd : m.authSafeIsData = true) (hs : m.oidIsSha1 = true) (hi0 : 0 ≤ m.iterations) (hi1 : m.iterations ≤ 2 ^ 20)
+    (hne : m.digest ≠ Prim.hmacSha1 (pbkdf m.salt pw m.iterations.toNat 3 20) m.content)
+    (hne0 : pw = [0, 0] → m.digest ≠ Prim.hmacSha1 (pbkdf m.salt [] m.iterations.toNat 3 20) m.content) :
+    openPfx file rs = some .incorrectPassword := by
+  have v1 : verifyMac m.oidIsSha1 m.salt m.iterations m.digest m.content pw = .incorrectPassword :=
+    (verifyMac_incorrect_iff _ _ _ _ _ _).2 ⟨hs, hi0, hi1, hne⟩
+  unfold openPfx
+  rw [hb, hm]
+  simp only
+  rw [if_neg (by simp [h3, hd])]
+  unfold verifyWithRetry
+  rw [v1]
+  simp only
+  by_cases hp : pw = [0, 0]
+  · have v2 : verifyMac m.oidIsSha1 m.salt m.iterations m.digest m.content [] = .incorrectPassword :=
+      (verifyMac_incorrect_iff _ _ _ _ _ _).2 ⟨hs, hi0, hi1, hne0 hp⟩
+    rw [if_pos hp, v2]
+  · rw [if_neg hp]
+
+/-- and conversely the verdict ErrIncorrectPassword is only ever produced by a MAC mismatch -/
+theorem openPfx_incorrect_only_if (file : Bytes) (rs : List Nat) (h : openPfx file rs = some .incorrectPassword) :
+    ∃ pw m, bmpString rs = some pw ∧ parsePfxMac file = some m ∧
+      m.digest ≠ Prim.hmacSha1 (pbkdf m.salt pw m.iterations.toNat 3 20) m.content := by
+  unfold openPfx at h
+  cases hb : bmpString rs with
+  | none => simp [hb] at h
+  | some pw =>
+    cases hm : parsePfxMac file with
+    | none => simp [hb, hm] at h
+    | some m =>
+      refine ⟨pw, m, rfl, rfl, ?_⟩
+      simp only [hb, hm] at h
+      by_cases hc : m.version ≠ 3 ∨ (!m.authSafeIsData) = true
+      · rw [if_pos hc] at h; cases h
+      · rw [if_neg hc] at h
+        intro hd
+        have hx : verifyMac m.oidIsSha1 m.salt m.iterations m.digest m.content pw ≠ .incorrectPassword := by
+          intro hv
+          exact ((verifyMac_incorrect_iff _ _ _ _ _ _).1 hv).2.2.2 hd
+        unfold verifyWithRetry at h
+        cases hv : verifyMac m.oidIsSha1 m.salt m.iterations m.digest m.content pw with
+        | ok => simp [hv] at h
+        | notImplemented => simp [hv] at h
+        | incorrectPassword => exact hx hv
+
+/-! ## non-vacuity: concrete instances for the theorems above -/
+-- step 6.C: the three length branches on a 2-byte toy width
+example : bigBytes 65537 = [1, 0, 1] ∧ bigBytes 1 = [1] ∧ bigBytes 258 = [1, 2] := by
+  simp [bigBytes, minimalLE]
+example : adjustLen 2 [1, 0, 1] = [0, 1] ∧ adjustLen 2 [1] = [0, 1] ∧ adjustLen 2 [1, 2] = [1, 2] := by decide
+example : addBlockSpec 2 [0xff, 0xff] [0, 1] = [0, 1] ∧ addBlockSpec 2 [0, 0] [0, 0] = [0, 1] := by decide
+example : addBlockGo 2 [0xff, 0xff] [0, 1] = [0, 1] := by rw [pbkdf_add_eq]; decide
+-- fillWithRepeats
+example : (fillWithRepeats [1, 2, 3] 4).length = 4 := by rw [fill_len _ _ (by decide)]; rfl
+example : fillWithRepeats [1, 2, 3] 4 = [1, 2, 3, 1] := by decide
+example : (fillWithRepeats [1, 2, 3, 4] 2).length = 4 := fill_len_multiple _ 2 2 (by decide) (by decide) rfl
+-- BMP
+example : ∃ b, bmpString [0x41, 0x5bc6] = some b ∧ b.length = 6 ∧ decodeBMPString b = some [0x41, 0x5bc6] :=
+  bmp_roundtrip _ (by intro r hr; simp at hr; rcases hr with rfl | rfl <;> simp [isSurrogate])
+example : bmpString [0x41, 0x1d11e, 0x42] = none := bmp_rejects_astral _ 0x1d11e (by decide) (by decide) (by decide)
+-- padding
+example : pbDecryptTail 8 id [9, 9, 9, 9, 9, 9, 9, 1] ≠ .panic :=
+  pbDecryptTail_no_panic 8 id (by decide) (fun _ => rfl) _
+-- MAC verdict: both outcomes occur
+example : verifyMac true [] 1 (Prim.hmacSha1 (pbkdf [] [0, 0] 1 3 20) [7]) [7] [0, 0] = .ok :=
+  (verifyMac_ok_iff _ _ _ _ _ _).2 ⟨rfl, by decide, by decide, rfl⟩
+example : verifyMac true [] (2 ^ 20 + 1) [] [] [] = .notImplemented := by decide
+-- DER walk
+example : tlv [0x30, 0x02, 0x05, 0x00, 0xff] = some (0x30, [0x05, 0x00], [0xff]) := by decide
+example : tlv [0x1f, 0x02, 0x05, 0x00] = none ∧ tlv [0x30, 0x05, 0x00] = none := by decide
+example : children [0x02, 0x01, 0x03, 0x04, 0x00] = some [(0x02, [0x03]), (0x04, [])] := by decide
+
 /-! ## the container-level statement
 
   `Model/C21_File.lean` is an independent reader (DER walk, MAC, 3DES/RC2-40 CBC with the App. B KDF,
